@@ -311,38 +311,44 @@ def qerr {α : Type} : Except QErr α → M α
 /-- `_check_refs_defined` -/
 def checkRefsDefined (e : Event) (avail : List String) : M Unit := do
   let refs ← qerr e.externalRefs
-  if refs.all (· ∈ avail) then pure () else .error .sanity
+  if refs.all (fun r => avail.contains r) then pure () else .error .sanity
 /-- `_check_duplicates` -/
 def checkDuplicates (aliases avail : List String) : M Unit :=
-  if aliases.any (· ∈ avail) then .error .sanity else .ok ()
+  if aliases.any (fun a => avail.contains a) then .error .sanity else .ok ()
+
+/-- `_check_activator`: no references allowed; returns the activator's aliases -/
+def checkActivator (s : Scope) : M (List String) :=
+  match s.activator with
+  | some a => do checkRefsDefined a []; pure a.aliases
+  | none => pure []
+/-- `_check_trigger` / `_check_behaviour` -/
+def checkEvent (e : Event) (avail : List String) : M (List String) := do
+  checkRefsDefined e avail
+  checkDuplicates e.aliases avail
+  pure (e.aliases ++ avail)
+/-- `_check_terminator` -/
+def checkTerminator (s : Scope) (avail : List String) : M Unit :=
+  match s.terminator with
+  | some q => do checkRefsDefined q avail; checkDuplicates q.aliases avail
+  | none => pure ()
+
+/-- the pattern dispatch of `sanity_check` (binding order: trigger before behaviour, reversed for `requires`) -/
+def patternCheck (p : Pattern) (initial : List String) : M Unit :=
+  match p.kind, p.trigger with
+  | .absence, _ | .existence, _ => do let _ ← checkEvent p.behaviour initial; pure ()
+  | .requirement, some t => do
+      let als ← checkEvent p.behaviour initial
+      let _ ← checkEvent t als; pure ()
+  | .response, some t | .prevention, some t => do
+      let als ← checkEvent t initial
+      let _ ← checkEvent p.behaviour als; pure ()
+  | _, none => .error (.internal "assert a is not None")
 
 /-- `HplProperty.sanity_check` -/
 def sanityCheck (s : Scope) (p : Pattern) : M Unit := do
-  -- _check_activator
-  let initial ← (match s.activator with
-    | some a => do checkRefsDefined a []; pure a.aliases
-    | none => pure [])
-  let checkBehaviour (avail : List String) : M (List String) := do
-    checkRefsDefined p.behaviour avail
-    let al := p.behaviour.aliases
-    checkDuplicates al avail
-    pure (al ++ avail)
-  let checkTrigger (avail : List String) : M (List String) :=
-    match p.trigger with
-    | none => .error (.internal "assert a is not None")
-    | some a => do
-        checkRefsDefined a avail
-        let al := a.aliases
-        checkDuplicates al avail
-        pure (al ++ avail)
-  match p.kind with
-  | .absence | .existence => do let _ ← checkBehaviour initial
-  | .requirement => do let al ← checkBehaviour initial; let _ ← checkTrigger al
-  | .response | .prevention => do let al ← checkTrigger initial; let _ ← checkBehaviour al
-  -- _check_terminator
-  match s.terminator with
-  | some q => do checkRefsDefined q initial; checkDuplicates q.aliases initial
-  | none => pure ()
+  let initial ← checkActivator s
+  patternCheck p initial
+  checkTerminator s initial
 
 /-- `HplProperty(scope, pattern)` (metadata is attached afterwards) -/
 def mkProperty (s : Scope) (p : Pattern) (md : List (String × String) := []) : M Property := do
